@@ -158,6 +158,9 @@ func (r *Report) finish() int {
 		undecided = append(undecided, fmt.Sprintf("solver disagreement on %d obligations (tool failure)", r.CrossDisagree))
 	}
 	for _, res := range r.Results {
+		if res.Unit != nil && res.Unit.exitCover == "unsat" && res.Unit.contract != nil && len(res.Unit.contract.Ensures) > 0 {
+			undecided = append(undecided, "vacuity: no normal exit of "+res.Key+" is reachable under the assumed facts (contradictory trusted contract or precondition?)")
+		}
 		if res.Unit != nil && res.Unit.coverStatus == "unsat" {
 			undecided = append(undecided, "vacuity: the entry assumptions (requires/type invariants) of "+res.Key+" are contradictory")
 		}
